@@ -34,6 +34,11 @@ VARTABLE = {
     'vel[0]': ('HYDROBASE', 'hydrobase-vel'),
     'vel[1]': ('HYDROBASE', 'hydrobase-vel'),
     'vel[2]': ('HYDROBASE', 'hydrobase-vel'),
+    # a thorn group aurel does not know (not in known_groups): its variable
+    # list has to be read from the file
+    'phi': ('MYTHORN', 'mythorn-fields'),
+    'Pi': ('MYTHORN', 'mythorn-fields'),
+    'chi': ('MYTHORN', 'mythorn-fields'),
 }
 ALLVARS = list(VARTABLE)
 ET_TO_AUREL = {'alp': 'alpha', 'rho': 'rho0', 'trK': 'Ktrace',
@@ -152,7 +157,7 @@ def write_restart(path, spec, restart, rspec):
     xyz = spec.get('xyz', '')
     with_m = spec.get('with_m', False)
     files = {}
-    for var in spec['variables']:
+    for var in rspec.get('variables', spec['variables']):
         thorn, _ = VARTABLE[var]
         for rl, its in rspec['its'].items():
             shape = spec['shapes'][rl]
